@@ -74,6 +74,19 @@ def c14_scenarios(scripts, seed, quick, call, scn):
              call(1, op="Publish", topic=T1, msgs=[{"p": "attrs#1"}, {"p": "utf8#1"}, {"p": "bin#1"}, {"p": "empty#1"}]),
              {"do": "waithttp", "n": 8, "ms": 4000}, {"do": "advance", "ms": 150}]
     finish(scn("c14-payloads", steps, seed=seed))
+    # no answer within the ack deadline for one message while its sibling is accepted at once: the
+    # clock jumps across the deadline while the endpoint holds the open exchange
+    for k in range(2 if quick else 6):
+        steps = [{"do": "endpoint", "script": {"pa": ["hold", "hold", 200], "pb": [200]} if k % 2 == 0 else {"pb": ["hold", 200], "pa": [500, 204]},
+                  "default": [200]},
+                 call(1, op="CreateTopic", name=T1), call(1, op="CreateSub", name=S1, topic=T1, ack=10 + k, push="$EP"),
+                 call(1, op="Publish", topic=T1, msgs=[{"p": "pa"}, {"p": "pb"}]),
+                 {"do": "waithttp", "n": 2, "ms": 4000}, {"do": "advance", "ms": 100},
+                 {"do": "pause"}, {"do": "jump", "ms": 11000 + 1000 * k}, {"do": "resume"},
+                 {"do": "advance", "ms": 300},
+                 {"do": "pause"}, {"do": "jump", "ms": 11000 + 1000 * k}, {"do": "resume"},
+                 {"do": "advance", "ms": 300}]
+        finish(scn("c14-slow-%d" % k, steps, seed=seed + k), push=False)
     # an endpoint on which nothing listens, and an unsupported endpoint
     steps = [{"do": "endpoint", "script": {}, "default": [200]},
              call(1, op="CreateTopic", name=T1), call(1, op="CreateSub", name=S1, topic=T1, ack=10, push="$DEAD"),
